@@ -263,6 +263,20 @@ def run(case, filter_factory=DirectFilter, stop_on_exception=True, observer=None
                     it.out = list(it.raw[0] or []) + list(it.raw[1] or [])
             except Exception as exc:  # pylint: disable=broad-except
                 it.exception = "%s: %s" % (type(exc).__name__, exc)
+        elif it.kind == "set_at":
+            # ["set_at", table]: the user changes the @-command action table in the settings (takes effect at once)
+            atm = AtModel(item[1])
+            try:
+                if hasattr(flt, "h"):
+                    flt.h.update_settings(atCommandActions=[dict(e, description="") for e in item[1]])
+                else:
+                    table = {}
+                    for ent in item[1]:
+                        act = AtCommandAction(ent["command"], ent.get("parameterPattern"), ent["action"], "")
+                        table.setdefault(act.command, []).append(act)
+                    flt.state.atCommandActions = table
+            except Exception as exc:  # pylint: disable=broad-except
+                it.exception = "%s: %s" % (type(exc).__name__, exc)
         elif it.kind == "event":
             # ["event", NAME]: OctoPrint event delivered to the plugin (plugin layer only)
             if item[1] == "PRINT_STARTED":
